@@ -43,8 +43,8 @@ func Reset() {
 }
 
 func Threads() []*Thread { return threads }
-func Current() *Thread    { return cur }
-func Aborting() bool      { return aborting }
+func Current() *Thread   { return cur }
+func Aborting() bool     { return aborting }
 
 // Go replaces a go statement: the new goroutine is parked until it is started.
 func Go(f func()) *Thread {
